@@ -16,6 +16,7 @@ func init() {
 		Explain: "Decides the ordering and guard clauses that make a graceful leave survive restarts: Serf.Leave notifies the snapshotter (when one exists) before the leave is applied or broadcast; the snapshotter's leave case sets leaving, clears the alive set exactly on the !rejoinAfterLeave edge BEFORE appending the leave record (a compaction inside that append serialises the in-memory set), then flushes and syncs; all recorders are behind !leaving; the alive set has a closed list of writers; replay resets state on a leave line exactly when rejoin-after-leave is off; compaction serialises the in-memory alive set. Events racing the leave notification in the channel are not covered.",
 		Run:     runC13,
 		Mutants: []Mutant{
+			{Name: "compact-before-leave-marker", File: "serf/snapshot.go", Func: "func (s *Snapshotter) appendLine(", Old: "\tn, err := s.buffered.WriteString(l)\n", New: "\tif s.offset+int64(len(l)) > s.snapshotMaxSize() {\n\t\tif err := s.compact(); err != nil {\n\t\t\treturn err\n\t\t}\n\t}\n\tn, err := s.buffered.WriteString(l)\n", Expect: "R6|appendLine"},
 			{Name: "clear-after-append", File: "serf/snapshot.go", Func: "func (s *Snapshotter) stream(", Old: "\t\t\tif !s.rejoinAfterLeave {\n\t\t\t\ts.aliveNodes = make(map[string]string)\n\t\t\t}\n\t\t\ts.tryAppend(\"leave\\n\")\n", New: "\t\t\ts.tryAppend(\"leave\\n\")\n\t\t\tif !s.rejoinAfterLeave {\n\t\t\t\ts.aliveNodes = make(map[string]string)\n\t\t\t}\n", Expect: "R2"},
 			{Name: "no-sync-after-leave", File: "serf/snapshot.go", Func: "func (s *Snapshotter) stream(", Old: "\t\t\tif err := s.fh.Sync(); err != nil {\n\t\t\t\ts.logger.Printf(\"[ERR] serf: failed to sync leave to snapshot: %v\", err)\n\t\t\t}\n", New: "", Expect: "R2"},
 			{Name: "leave-after-broadcast", File: "serf/serf.go", Func: "func (s *Serf) Leave(", Old: "\t// If we have a snapshot, mark we are leaving\n\tif s.snapshotter != nil {\n\t\ts.snapshotter.Leave()\n\t}\n", New: "", Expect: "R1"},
@@ -30,6 +31,7 @@ func init() {
 		Explain: "Decides the bookkeeping invariant structurally on every path that changes a member's status: storing Failed/Left is paired with an append to the matching list; leaving Failed/Left is paired with removal from the matching list unless an edge establishes the old status was different; all under the memberLock write section; the lists and the member map have a closed set of writers; eraseNode deletes the map entry and emits exactly one reap event, and its callers removed the member from its list first; Stats reports len() of the two lists under the lock; the reap scan visits each element once, uses strict '>' against the configured timeout as adjusted per member from the configured base. Wall-clock behaviour is not covered.",
 		Run:     runC15,
 		Mutants: []Mutant{
+			{Name: "prune-sleeps-unlocked", File: "serf/serf.go", Func: "func (s *Serf) handlePrune(", Old: "\t\ttime.Sleep(s.config.BroadcastTimeout + s.config.LeavePropagateDelay)\n", New: "\t\ts.memberLock.Unlock()\n\t\ttime.Sleep(s.config.BroadcastTimeout + s.config.LeavePropagateDelay)\n\t\ts.memberLock.Lock()\n", Expect: "R6"},
 			{Name: "rename-locals", Equivalent: true, Regexp: true, File: "serf/serf.go", Func: "func (s *Serf) reap(", Old: `\b(n|m|memberTimeout)\b`, New: "${1}Renamed"},
 			{Name: "failed-not-listed", File: "serf/serf.go", Func: "func (s *Serf) handleNodeLeave(", Old: "\t\ts.failedMembers = append(s.failedMembers, member)\n", New: "", Expect: "R1"},
 			{Name: "forceleave-keeps-failed-entry", File: "serf/serf.go", Func: "func (s *Serf) handleNodeLeaveIntent(", Old: "\t\ts.failedMembers = removeOldMember(s.failedMembers, member.Name)\n", New: "", Expect: "R1"},
@@ -64,6 +66,8 @@ func runC13(c *an.Ctx) {
 	c.Rule("R3 recorders are called only behind !leaving and only from the snapshot goroutine; writers of aliveNodes are {constructor, replay, leave case, member recorder}")
 	c.Rule("R4 replay: the 'leave' line resets aliveNodes and clocks exactly on !rejoinAfterLeave")
 	c.Rule("R5 compaction serialises the in-memory aliveNodes")
+	c.Rule("R6 (shared with C12) the leave marker, like every line, is buffered before any compaction attempt and unconditionally")
+	appendOrderRule(c, "R6")
 	// R1
 	if lv := sm(c, "R1", "Serf", "Leave"); lv != nil {
 		noSnap := an.EdgesImplying(lv, an.Cmp{L: "$0.snapshotter", Op: "==", R: "c:nil"})
@@ -236,6 +240,23 @@ func runC15(c *an.Ctx) {
 	c.Rule("R2 closed writer sets for failedMembers, leftMembers, members")
 	c.Rule("R3 eraseNode: one delete of members[m.Name], one non-loop send of a reap event; callers reap (after unlisting) and handlePrune (after removal from leftMembers when Leaving/Left)")
 	c.Rule("R4 Stats reports len(failedMembers)/len(leftMembers) read under memberLock")
+	c.Rule("R6 a function that is entered with memberLock held never releases it (status decision and list/erase updates stay in one critical section)")
+	{
+		locks6 := an.NewLocks(c.P)
+		n6 := 0
+		for _, f := range c.P.FuncsIn(serf) {
+			if !locks6.Entry(f).HasW("Serf.memberLock") {
+				continue
+			}
+			n6++
+			an.Instrs(f, func(in ssa.Instruction) {
+				if l, op := an.LockOpOf(in); l == "Serf.memberLock" && strings.HasPrefix(op, "-") {
+					c.Add(false, "R6", an.FuncName(f)+":keeps-member-lock", in, an.FuncName(f)+" is entered with memberLock held and releases it: its checks and updates are no longer one critical section", "entry-held lockset + unlock enumeration")
+				}
+			})
+		}
+		c.Floor("R6", "functions entered with memberLock held", n6, 3)
+	}
 	c.Rule("R5 reap scan: keep iff now-leaveTime <= timeout' (strict erase), timeout' = override(member, configured timeout) or the configured timeout; i net 0 on erase, +1 on keep; bound shrinks by one on erase; slot refilled from the last element")
 	locks := an.NewLocks(c.P)
 	failed, left := cv(c, serf, "StatusFailed"), cv(c, serf, "StatusLeft")
